@@ -1,4 +1,4 @@
-CONSTANTS Hosts <- H3  Weights <- WAll  StratSet <- SOthers  WtSet <- BoolBoth  RefreshLists <- Lists1x  Codes <- C3
+CONSTANTS Hosts <- H3  Weights <- W123  StratSet <- SRR  WtSet <- OnlyTrue  RefreshLists <- Lists1x  Codes <- C1
 CONSTANT CycleOf <- MCCycleOf
 SPECIFICATION Spec
 INVARIANTS TypeOK SelectsMember ErrorIffNoneEligible NoneEligibleMeans Rotation WeightedCycle CycleCoversAll
